@@ -10,6 +10,9 @@ TRUST = ("Trusted: Go type checker and go/ssa (x/tools v0.29.0), CHA/VTA call gr
 
 # id -> (technique, level text, design ref)   -- only properties whose check exists are listed here
 CLAIMS = {
+    "C20": ("path-sensitive typestate over go/ssa for the result channel of every solver.Interface method (close-once, guarded sends, last-sent = returned); allocation-freshness analysis of sent slices; forwarder drain analysis",
+            "Decides, on every path of every method implementing solver.Interface, that the result channel is closed exactly once when non-nil, never sent on while nil or after close, that the value returned is the last one sent, that sent slices are fresh, and that the MaxSAT forwarder drains its producer. Consumer-independent necessary conditions; validity and strict improvement of the results are not decided.",
+            "DESIGN.md section 5, C20"),
     "C16": ("whole-program storage-distance (escape/ownership) analysis over go/ssa for package-level state; goroutine hand-over (join) analysis; import audit",
             "Decides, for every function of the four library packages, that no package-level storage is written or handed out (so data-independent uses share no location under any schedule) and that each library goroutine joins before its results are read. Necessary conditions of race freedom, not the agreement of results.",
             "DESIGN.md section 5, C16"),
